@@ -112,3 +112,37 @@ def run(ctx):
         return ["borrowed:" + b[2:].split()[0] + ("" if b[2:].startswith("ok") else ":" + b[2:].split()[1].split("@")[0] if len(b[2:].split()) > 1 else ""),
                 "owned:" + o[2:].split()[0]]
     ctx.diff_domain("codec", cases, oracle=oracle, nontrivial=nontrivial, classify=classify)
+    # histories on one thread: each input through the zero-copy decoder and through the owned one, in a run of calls some of
+    # which fail — the two must keep agreeing whatever the earlier calls left behind
+    small = [d for d in datas if 3 < len(d) < 2000]
+    hcases, HEL = [], {}
+    for _ in range(ctx.budget(150, 3000)):
+        elems = [rng.choice(small) for _e in range(rng.choice([2, 3, 5]))]
+        one_by_one = bytesgen.attach_ztabs("dec", elems)
+        ents = {}
+        for x in one_by_one:
+            w = x.split()[2:]
+            for i in range(0, len(w) - 3, 4):
+                ents[w[i + 1]] = " ".join(w[i:i + 4])
+        ztail = " ".join(ents[k] for k in sorted(ents, key=len, reverse=True))
+        seq = []
+        for d in elems:
+            seq += ["B" + d.hex(), d.hex()]
+        case = "dech " + ",".join(seq) + ((" " + ztail) if ztail else "")
+        HEL[case] = elems
+        hcases.append(case)
+
+    def hist_oracle(case, impl):
+        if impl.startswith(("PANIC", "CRASH", "TIMEOUT")):
+            return ("violation", "decoder did not return: " + impl[:60])
+        outs = impl.split(" ;; ")
+        for k, d in enumerate(HEL[case]):
+            b, o = outs[2 * k], outs[2 * k + 1]
+            if b.startswith("ok") and b != o:
+                return ("violation", "in a history of calls the zero-copy result differs from the owned decoder's: %s vs %s" % (b[:60], o[:60]))
+            if o.startswith("ok") and not b.startswith("ok"):
+                tags = bytesgen.tags_used(d)
+                if tags is not None and tags <= bytesgen.MODERN:
+                    return ("violation", "in a history of calls the zero-copy decoder rejects a modern input the owned decoder accepts")
+        return None
+    ctx.diff_domain("codec", hcases, oracle=hist_oracle, nontrivial=lambda c, i: c, classify=lambda c, i: ["op:dech-pairs"])
